@@ -11,3 +11,4 @@ def run(ctx):
     shared.single_history_entry(ctx, "R4")
     shared.macrostep_in_consumer(ctx, "R5")
     shared.snapshot_ancestor_closure(ctx, "R7")
+    shared.dotted_id_tests(ctx, "R8")
